@@ -316,6 +316,9 @@ func runRefsCase(r *rng) (coq string, ops []refOp, fails []OracleFailure, nOK in
 				continue
 			}
 			w.doc = nd
+			if _, has := nd.GetParts()["word/numbering.xml"]; has {
+				w.foreignNumbering = true // an opened document that carries its own numbering definitions
+			}
 			w.apiStyles = map[string]bool{} // the manager is re-initialised; saved definitions stay in the part
 			ops = append(ops, refOp{Kind: "Reopen"})
 			still := []string{}
